@@ -460,6 +460,9 @@ func (gen *Generator) GenerateCond(args []Sexp) error {
 	// we generate the cond bottom up, so i counts down.
 	for i := len(args)/2 - 1; i >= 0; i-- {
 		subgen.Reset()
+		// a predicate is not in tail position, but it is inside the same
+		// scopes: a break or continue in it has those to remove.
+		subgen.scopes = gen.scopes
 		err := subgen.Generate(args[2*i])
 		if err != nil {
 			return err
